@@ -72,3 +72,301 @@ def enum_shape(values):
     """Shape of an enumeration: every member counts with the shape it has as a constant."""
     shapes = [const_shape(v) for v in values]
     return unify(shapes)
+
+
+# ------------------------------------------------------------------------------ expressions
+#
+# Descriptor grammar (JSON lists):
+#   ["sig", i]                     input signal i of the environment (shape env[i] = [w, s])
+#   ["const", v, w, s]             Const(v, Shape(w, s))        ["int", v]   bare Python int
+#   ["u", op, a]                   op in ~ neg abs bool any all xor as_s as_u
+#   ["b", op, a, b]                op in + - * // % == != < <= > >= & | ^ << >>
+#   ["shl"|"shr"|"rol"|"ror", a, n]          constant amount n (any int)
+#   ["idx", a, i]  ["slice", a, start, stop]  ["sslice", a, start, stop, step]   (Python ints / None)
+#   ["cat", [parts]]  ["rep", a, n]
+#   ["bsel"|"wsel", a, off, w]     off: expression (unsigned) or ["int", k]
+#   ["mux", sel, a, b]             ["arr", [elems], index]        ["match", a, [patterns]]
+
+class Ill(Exception):
+    """Descriptor is outside the documented input domain (generator bug if it ever escapes)."""
+
+
+def shape_of(e, env):
+    k = e[0]
+    if k == "sig":
+        w, s = env[e[1]]
+        return (w, bool(s))
+    if k == "const":
+        return (e[2], bool(e[3]))
+    if k == "int":
+        return const_shape(e[1])
+    if k == "u":
+        op = e[1]
+        w, s = shape_of(e[2], env)
+        if op == "~":
+            return (w, s)
+        if op == "neg":
+            return (w + 1, True)
+        if op == "abs":
+            return (w, False)
+        if op in ("bool", "any", "all", "xor"):
+            return (1, False)
+        if op == "as_u":
+            return (w, False)
+        if op == "as_s":
+            if w == 0:
+                raise Ill("as_signed of zero width")
+            return (w, True)
+        raise Ill(op)
+    if k == "b":
+        op = e[1]
+        (wa, sa), (wb, sb) = shape_of(e[2], env), shape_of(e[3], env)
+        if op == "+":
+            w, s = unify([(wa, sa), (wb, sb)])
+            return (w + 1, s)
+        if op == "-":
+            w, s = unify([(wa, sa), (wb, sb)])
+            return (w + 1, True)
+        if op == "*":
+            return (wa + wb, sa or sb)
+        if op == "//":
+            return (wa + (1 if sb else 0), sa or sb)
+        if op == "%":
+            return (wb, sb)
+        if op in ("==", "!=", "<", "<=", ">", ">="):
+            return (1, False)
+        if op in ("&", "|", "^"):
+            return unify([(wa, sa), (wb, sb)])
+        if op == "<<":
+            if sb:
+                raise Ill("signed shift amount")
+            return (wa + 2 ** wb - 1, sa)
+        if op == ">>":
+            if sb:
+                raise Ill("signed shift amount")
+            return (wa, sa)
+        raise Ill(op)
+    if k in ("shl", "shr"):
+        w, s = shape_of(e[1], env)
+        n = e[2] if k == "shl" else -e[2]
+        if s:
+            return (max(w + n, 1), True)
+        return (max(w + n, 0), False)
+    if k in ("rol", "ror"):
+        return (shape_of(e[1], env)[0], False)
+    if k == "idx":
+        w, _ = shape_of(e[1], env)
+        if e[2] not in range(-w, w):
+            raise Ill("index out of bounds")
+        return (1, False)
+    if k == "slice":
+        w, _ = shape_of(e[1], env)
+        start, stop, _ = slice(e[2], e[3]).indices(w)
+        if start > stop:
+            raise Ill("reversed slice")
+        return (stop - start, False)
+    if k == "sslice":
+        w, _ = shape_of(e[1], env)
+        return (len(range(*slice(e[2], e[3], e[4]).indices(w))), False)
+    if k == "cat":
+        return (sum(shape_of(p, env)[0] for p in e[1]), False)
+    if k == "rep":
+        return (shape_of(e[1], env)[0] * e[2], False)
+    if k in ("bsel", "wsel"):
+        if e[2][0] != "int" and shape_of(e[2], env)[1]:
+            raise Ill("signed offset")
+        return (e[3], False)
+    if k == "mux":
+        return unify([shape_of(e[2], env), shape_of(e[3], env)])
+    if k == "arr":
+        return unify([shape_of(x, env) for x in e[1]])
+    if k == "match":
+        return (1, False)
+    raise Ill(k)
+
+
+def norm_pattern(p, w, s):
+    """A pattern as (mask, value) on the w-bit pattern, or None if it can never match."""
+    if isinstance(p, str):
+        p = "".join(p.split())
+        if len(p) != w:
+            raise Ill("pattern width")
+        mask = int("0" + "".join("0" if c == "-" else "1" for c in p), 2)
+        val = int("0" + "".join("1" if c == "1" else "0" for c in p), 2)
+        return (mask, val)
+    if not fits(p, w, s):
+        return None
+    return ((1 << w) - 1, bits(p, w))
+
+
+def matches(v, w, s, patterns):
+    pat = bits(v, w)
+    for p in patterns:
+        mv = norm_pattern(p, w, s)
+        if mv is not None and (pat & mv[0]) == mv[1]:
+            return True
+    return False
+
+
+def evaluate(e, env, vals):
+    """Exact mathematical value of the expression (a Python int) given input values."""
+    v = _ev(e, env, vals)
+    w, s = shape_of(e, env)
+    if not fits(v, w, s):
+        raise OracleBug(f"result {v} of {e} does not fit reference shape {(w, s)}")
+    return v
+
+
+def _ev(e, env, vals):
+    k = e[0]
+    if k == "sig":
+        return vals[e[1]]
+    if k == "const":
+        return wrap(e[1], e[2], e[3])
+    if k == "int":
+        return e[1]
+    if k == "u":
+        op = e[1]
+        a = evaluate(e[2], env, vals)
+        w, s = shape_of(e[2], env)
+        if op == "~":
+            return ~a if s else ((1 << w) - 1 - a)
+        if op == "neg":
+            return -a
+        if op == "abs":
+            return abs(a)
+        if op in ("bool", "any"):
+            return int(a != 0)
+        if op == "all":
+            return int(bits(a, w) == (1 << w) - 1)
+        if op == "xor":
+            return bin(bits(a, w)).count("1") & 1
+        if op == "as_u":
+            return bits(a, w)
+        if op == "as_s":
+            return wrap(a, w, True)
+    if k == "b":
+        op = e[1]
+        a = evaluate(e[2], env, vals)
+        b = evaluate(e[3], env, vals)
+        if op == "+": return a + b
+        if op == "-": return a - b
+        if op == "*": return a * b
+        if op == "//": return 0 if b == 0 else a // b
+        if op == "%": return 0 if b == 0 else a % b
+        if op == "==": return int(a == b)
+        if op == "!=": return int(a != b)
+        if op == "<": return int(a < b)
+        if op == "<=": return int(a <= b)
+        if op == ">": return int(a > b)
+        if op == ">=": return int(a >= b)
+        if op == "&": return a & b
+        if op == "|": return a | b
+        if op == "^": return a ^ b
+        if op == "<<": return a << b
+        if op == ">>": return a >> b
+    if k in ("shl", "shr"):
+        a = evaluate(e[1], env, vals)
+        w, s = shape_of(e[1], env)
+        n = e[2] if k == "shl" else -e[2]
+        if n >= 0:
+            return a << n
+        return a >> (-n)
+    if k in ("rol", "ror"):
+        a = evaluate(e[1], env, vals)
+        w, _ = shape_of(e[1], env)
+        if w == 0:
+            return 0
+        n = (e[2] if k == "rol" else -e[2]) % w
+        p = bits(a, w)
+        return ((p << n) | (p >> (w - n))) & ((1 << w) - 1)
+    if k == "idx":
+        a = evaluate(e[1], env, vals)
+        w, _ = shape_of(e[1], env)
+        return (bits(a, w) >> (e[2] % w)) & 1
+    if k == "slice":
+        a = evaluate(e[1], env, vals)
+        w, _ = shape_of(e[1], env)
+        start, stop, _ = slice(e[2], e[3]).indices(w)
+        return (bits(a, w) >> start) & ((1 << (stop - start)) - 1)
+    if k == "sslice":
+        a = evaluate(e[1], env, vals)
+        w, _ = shape_of(e[1], env)
+        p = bits(a, w)
+        out = 0
+        for j, i in enumerate(range(*slice(e[2], e[3], e[4]).indices(w))):
+            out |= ((p >> i) & 1) << j
+        return out
+    if k == "cat":
+        out = off = 0
+        for part in e[1]:
+            w, _ = shape_of(part, env)
+            out |= bits(evaluate(part, env, vals), w) << off
+            off += w
+        return out
+    if k == "rep":
+        w, _ = shape_of(e[1], env)
+        p = bits(evaluate(e[1], env, vals), w)
+        out = 0
+        for i in range(e[2]):
+            out |= p << (i * w)
+        return out
+    if k in ("bsel", "wsel"):
+        a = evaluate(e[1], env, vals)       # mathematical value: >> sign-extends negatives,
+        off = evaluate(e[2], env, vals)     # reads zero above an unsigned operand
+        if k == "wsel":
+            off *= e[3]
+        return (a >> off) & ((1 << e[3]) - 1)
+    if k == "mux":
+        sel = evaluate(e[1], env, vals)
+        return evaluate(e[2], env, vals) if sel != 0 else evaluate(e[3], env, vals)
+    if k == "arr":
+        i = evaluate(e[2], env, vals)
+        if not 0 <= i < len(e[1]):
+            raise Ill("array index out of range")
+        return evaluate(e[1][i], env, vals)
+    if k == "match":
+        a = evaluate(e[1], env, vals)
+        w, s = shape_of(e[1], env)
+        return int(matches(a, w, s, e[2]))
+    raise Ill(k)
+
+
+def depth(e):
+    k = e[0]
+    if k in ("sig", "const", "int"):
+        return 0
+    subs = subexprs(e)
+    return 1 + max([depth(x) for x in subs], default=0)
+
+
+def subexprs(e):
+    k = e[0]
+    if k in ("sig", "const", "int"):
+        return []
+    if k == "u":
+        return [e[2]]
+    if k == "b":
+        return [e[2], e[3]]
+    if k in ("shl", "shr", "rol", "ror", "idx", "slice", "sslice", "rep"):
+        return [e[1]]
+    if k == "cat":
+        return list(e[1])
+    if k in ("bsel", "wsel"):
+        return [e[1], e[2]]
+    if k == "mux":
+        return [e[1], e[2], e[3]]
+    if k == "arr":
+        return list(e[1]) + [e[2]]
+    if k == "match":
+        return [e[1]]
+    raise Ill(k)
+
+
+def ops_in(e, acc=None):
+    acc = set() if acc is None else acc
+    k = e[0]
+    acc.add(k + ":" + e[1] if k in ("u", "b") else k)
+    for x in subexprs(e):
+        ops_in(x, acc)
+    return acc
